@@ -195,6 +195,13 @@ def _ap_binop(op, l, r):
     """arithmetic progressions: ("ap", slope, first, rest) is the 1-D array with element 0 = first and element k>=1 = slope*k + rest;
     ("ap-tail", slope, rest) its elements k>=1.  Closed under * / by and + - of a constant scalar."""
     for a, k, swapped in ((l, r, False), (r, l, True)):
+        if isinstance(a.parts, tuple) and a.parts and a.parts[0] == "ap-tail-k" and k.shape == () and k.has_const() and \
+                isinstance(k.const, (int, float)) and not isinstance(k.const, bool) and (isinstance(op, ast.Add) or (isinstance(op, ast.Sub) and not swapped)):
+            # elements k.. of a progression, shifted by a constant
+            return ("ap-tail-k", a.parts[1], a.parts[2], a.parts[3] + (k.const if isinstance(op, ast.Add) else -k.const))
+        if isinstance(a.parts, tuple) and a.parts and a.parts[0] == "ap" and a.parts[1] != 0 and swapped and isinstance(op, ast.Div) and \
+                k.shape == () and k.has_const() and isinstance(k.const, (int, float)) and not isinstance(k.const, bool) and k.const != 0:
+            return ("non-ap", "a constant divided by an arithmetic progression (c / (a*k + b)): not a progression")
         if isinstance(a.parts, tuple) and a.parts and a.parts[0] in ("ap", "ap-tail") and k.shape == () and k.has_const() and \
                 isinstance(k.const, (int, float)) and not isinstance(k.const, bool):
             cst = k.const
@@ -478,6 +485,8 @@ def binop(I, fr, op, l, r, node):
             span_tag = frozenset(["span:hi-lo"])        # (last - first) of one ascending array: an extent
         elif l.ext[0] == "lo" and r.ext[0] == "hi":
             sign = S_NONPOS
+    elif isinstance(op, ast.Add) and l.ext is not None and r.ext is not None and l.ext[1:] == r.ext[1:] and {l.ext[0], r.ext[0]} == {"lo", "hi"}:
+        span_tag = frozenset(["span:hi+lo"])            # (last + first) of one array: a located sum of the two ends, not an extent
     if sym is not None and kind != K_SCALAR:
         sym = None
     if sym is not None and isinstance(op, (ast.Sub, ast.Add)) and getattr(I, "revfirst", None):
@@ -881,6 +890,8 @@ def subscript(I, fr, base, idx, node, quiet=False):
             parts_ = ("ap-tail", b.parts[1], b.parts[3])
         elif (lo_ is None or int_const(lo_) == 0) and st_ is None:
             parts_ = b.parts          # a leading segment of the progression is the same progression
+        elif lo_ is not None and int_const(lo_) is not None and int_const(lo_) >= 2 and up_ is None and st_ is None:
+            parts_ = ("ap-tail-k", int_const(lo_), b.parts[1], b.parts[3])      # the elements from position k >= 2 on
     if kind == K_ARRAY and len(comps) == 1 and comps[0] is not None and comps[0].kind == K_SLICE and comps[0].items is not None and \
             isinstance(b.parts, tuple) and b.parts and b.parts[0] == "pconst":
         lo_, up_, st_ = comps[0].items
